@@ -52,7 +52,7 @@ def run(ctx):
             # implemented content rules: run the real dispatch on a scratch node
             n = Node("zz"); errs = []
             r = rulemod.Rule(rn)
-            r._validate_content(n, False, errs)
+            r.validate_rule(n, errs)          # public entry point; only the UNKNOWN_CONTENT_RULE code is looked at
             if any(e[0].name == "UNKNOWN_CONTENT_RULE" for e in errs):
                 fails.append({"case": case, "what": f"rule {rn}: content rule not implemented: {content.get('content_rules')}"})
         except Exception as ex:
@@ -62,7 +62,7 @@ def run(ctx):
         if rn not in rules:
             continue
         try:
-            nm = rulemod.Rule(rn)._rule_children_names
+            nm = list(dict.fromkeys(lang.names(lang.parse(rules[rn][1]))))
         except Exception:
             continue
         for c in nm:
@@ -136,6 +136,7 @@ def replay_finding(f):
         r = rulemod.Rule(f["rule"])
     except Exception:
         return None
-    if f["child"] in r._rule_children_names and f["child"] not in rulemod.node_mappings:
+    import lang as _l
+    if f["child"] in _l.names(_l.parse(rulemod.rules_dict[f["rule"]][1])) and f["child"] not in rulemod.node_mappings:
         return f["what"]
     return None
